@@ -281,3 +281,27 @@ def selftest():
             os.rmdir(d)
         except OSError:
             pass
+
+
+class PlanScheduler(Scheduler):
+    """Scheduler driven by a preemption plan {"first": t0, "preempt": [[step, thread], ...]}: run `first`; at yield step s switch to
+    thread t (if runnable); otherwise stay on the current thread.  Used to enumerate every schedule with at most k preemptions."""
+
+    def __init__(self, traced, plan, **kw):
+        super().__init__(traced, [], **kw)
+        self.plan = {s: t for s, t in plan["preempt"]}
+        self.first = plan["first"]
+        self.want = plan["first"]
+
+    def _choose(self, me):
+        runnable = [t for t in self.threads if self._runnable(t)]
+        if not runnable:
+            return None
+        if self.steps in self.plan:
+            self.want = self.plan[self.steps]
+        for t in runnable:
+            if t.idx == self.want:
+                return t
+        if me is not None and me in runnable:
+            return me
+        return runnable[0]
